@@ -208,7 +208,17 @@ fn mk_proposal(deposit: &BigNum, i: u64) -> VotingProposal {
     };
     VotingProposal::new(&action, &anchor(i, 14), &RewardAddress::new(0, &kcred(i, 15)), deposit)
 }
-fn reward_address(id: u64) -> RewardAddress { RewardAddress::new(0, &kcred(id, 16)) }
+/// reward account id = credential index (id mod 8) + 8 * network code (0 -> network 0, 1 -> network 1, 2 -> network 5)
+/// + 32 if the credential is a (native) script: the same credential on two networks gives two accounts
+fn reward_is_script(id: u64) -> bool { id >= 32 }
+fn reward_script(id: u64) -> NativeScript { policy_script(200 + id % 8) }
+fn reward_address(id: u64) -> RewardAddress {
+    let net = [0u8, 1, 5][((id / 8) % 3) as usize];
+    if reward_is_script(id) { RewardAddress::new(net, &Credential::from_scripthash(&reward_script(id).hash())) }
+    else { RewardAddress::new(net, &kcred(id % 8, 16)) }
+}
+/// a small pool: 3 credentials x {key, script} x 3 networks, so that same-credential / different-network pairs are frequent
+fn gen_reward_id(r: &mut Rng) -> u64 { r.range(1, 3) + 8 * r.below(3) + if r.chance(1, 4) { 32 } else { 0 } }
 
 // ------------------------------------------------------------------------------------------------
 // scenario data
@@ -482,7 +492,11 @@ fn run_op(w: &mut World, op: &Op, last_tx: &mut Option<Transaction>) -> OpRec {
                 None => w.tb.remove_withdrawals(),
                 Some(ws) => {
                     let mut b = WithdrawalsBuilder::new();
-                    for (a, c) in ws { w.rw_ids.insert(reward_address(*a).to_address().to_bytes(), *a); b.add(&reward_address(*a), c).expect("key reward address"); }
+                    for (a, c) in ws {
+                        w.rw_ids.insert(reward_address(*a).to_address().to_bytes(), *a);
+                        if reward_is_script(*a) { b.add_with_native_script(&reward_address(*a), c, &NativeScriptSource::new(&reward_script(*a))).expect("script reward address"); }
+                        else { b.add(&reward_address(*a), c).expect("key reward address"); }
+                    }
                     w.tb.set_withdrawals_builder(&b);
                 }
             }
@@ -955,7 +969,7 @@ fn gen_scenario(r: &mut Rng, stream: u32) -> Scenario {
     }
     if matches!(stream, 4 | 6) || r.chance(1, 6) {
         if r.chance(1, 2) { pre.push(Op::Certs(Some(gen_certs(r, edge)))); }
-        if r.chance(1, 2) { let n = r.range(1, 3); pre.push(Op::Wd(Some((0..n).map(|_| (r.range(1, 6), b64(if edge { r.u64_edge() } else { r.range(0, 3_000_000) }))).collect()))); }
+        if r.chance(1, 2) { let n = r.range(1, 4); pre.push(Op::Wd(Some((0..n).map(|_| (gen_reward_id(r), b64(if edge { r.u64_edge() } else { r.range(0, 3_000_000) }))).collect()))); }
         if r.chance(1, 3) {
             let n = r.range(1, 2);
             if r.chance(1, 2) { pre.push(Op::Props(Some((0..n).map(|_| b64(if edge { r.u64_edge() } else { r.range(0, 4_000_000) })).collect()))); }
@@ -1087,12 +1101,12 @@ fn gen_scenario(r: &mut Rng, stream: u32) -> Scenario {
             if has(&|o| matches!(o, Op::Mint(..) | Op::AddMint(..) | Op::DMint(..) | Op::MintOut(..) | Op::MintOutMin(..))) { present.push(Op::RmMint); }
             if !present.is_empty() && r.chance(1, 2) { let k = r.below(present.len() as u64) as usize; post.push(present[k].clone()); continue; }
             let m = match r.below(16) {
-                0 | 1 => if has(&|o| matches!(o, Op::Wd(Some(_)) | Op::DWd(_))) || r.chance(1, 3) { Op::Wd(None) } else { Op::Wd(Some(vec![(r.range(1, 6), b64(r.range(1, 2_000_000)))])) },
+                0 | 1 => if has(&|o| matches!(o, Op::Wd(Some(_)) | Op::DWd(_))) || r.chance(1, 3) { Op::Wd(None) } else { Op::Wd(Some(vec![(gen_reward_id(r), b64(r.range(1, 2_000_000))), (gen_reward_id(r), b64(r.range(1, 2_000_000)))])) },
                 2 | 3 => if has(&|o| matches!(o, Op::Certs(Some(_)) | Op::DCerts(_))) || r.chance(1, 3) { Op::Certs(None) } else { Op::Certs(Some(gen_certs(r, false))) },
                 4 => Op::RmMint,
                 5 => Op::Don(b64(r.range(0, 2_000_000))),
                 6 => Op::Treas(b64(r.below(3) * 1_000_000_000)),
-                7 => Op::Wd(Some(vec![(r.range(1, 6), b64(r.range(0, 2_000_000)))])),
+                7 => Op::Wd(Some(vec![(gen_reward_id(r), b64(r.range(0, 2_000_000))), (gen_reward_id(r), b64(r.range(1, 2_000_000)))])),
                 8 => Op::Out(r.range(1, 30), 0, Val::ada(r.range(1_000_000, 3_000_000))),
                 9 => { let (id, _) = r.pick(&utxos).clone(); Op::In(id) },
                 10 => if r.chance(1, 2) { Op::Fee(b64(r.range(150_000, 2_000_000))) } else { Op::MinFee(b64(r.range(150_000, 2_000_000))) },
